@@ -104,6 +104,7 @@ func c12Run(c c12Case, base string) (string, string) {
 		return true
 	}
 
+	var silentAt time.Time /* When a connection that never says anything was opened. */
 	/* Pre-attempts: the listener must stay open through all of them. */
 	for i, pre := range c.Pre {
 		switch pre {
@@ -119,6 +120,16 @@ func c12Run(c c12Case, base string) (string, string) {
 			if !waitNotice(`Shell is gone`) {
 				return fail("pre-attempt-lost", "no 'gone' notice after a half-attached input left")
 			}
+		case "silent-tcp":
+			/* A TCP connection on which nothing is ever sent (a port
+			scan, nc, a client stalled before its handshake), opened just
+			before the shell and kept open to the end. */
+			cn, err := net.DialTimeout("tcp", addr, 5*time.Second)
+			if nil != err {
+				return fail("listener-closed-early", fmt.Sprintf("pre-attempt %d (%s): %v", i, pre, err))
+			}
+			defer cn.Close()
+			silentAt = time.Now()
 		case "half-out":
 			cn, err := openOut(fmt.Sprintf("pre%d", i))
 			if nil != err {
@@ -355,6 +366,13 @@ func c12Run(c c12Case, base string) (string, string) {
 	co.Close()
 	/* An operator-scale pause (see C20), then one trigger must do. */
 	time.Sleep(3 * time.Second)
+	if !silentAt.IsZero() {
+		/* net/http's graceful shutdown gives a connection that has not
+		sent anything yet five full seconds before it counts as idle; the
+		server side is still winding down until then, and a line entered
+		meanwhile is, rightly, input for a shell (DESIGN 12.4, O4). */
+		time.Sleep(time.Until(silentAt.Add(12 * time.Second)))
+	}
 	if c.Brief {
 		refused := false
 		for deadline := time.Now().Add(20 * time.Second); time.Now().Before(deadline); time.Sleep(50 * time.Millisecond) {
@@ -441,6 +459,11 @@ func c12(r *ev.Result, tier string) {
 	for _, arr := range []string{"in-out", "io"} {
 		cases = append(cases, c12Case{Arrival: arr, Ending: "eof", Trigger: "line", QuietMs: long})
 	}
+	/* A silent TCP connection that outlives the shell. */
+	for _, arr := range []string{"in-out", "io"} {
+		cases = append(cases, c12Case{Pre: []string{"silent-tcp"}, Arrival: arr, Ending: "eof", Trigger: "line"})
+		cases = append(cases, c12Case{Pre: []string{"silent-tcp"}, Arrival: arr, Ending: "close-both", Trigger: "ctrl-d", Brief: true})
+	}
 	/* Very many half-attached attempts before the shell. */
 	cases = append(cases, c12Case{Pre: []string{"many-half-out"}, Arrival: "in-out", Ending: "eof", Trigger: "line"})
 	/* Listening on every address of the machine, in each spelling. */
@@ -469,14 +492,29 @@ func c12(r *ev.Result, tier string) {
 			r.Violate(ev.Violation{Signature: sig + "/pre=" + strings.Join(c.Pre, "+") + "/" + c.Arrival, What: fmt.Sprintf("%+v: %s", c, what), Kind: "c12", Replay: c})
 		}
 	})
+	/* Several bidirectional callbacks at the same moment. */
+	c12IORace(r, base, map[bool]int{true: 150, false: 600}[quick])
 	/* Two scenarios with the server in-process. */
 	c12InProcess(r)
 	r.Sample(3, cases[len(cases)/2])
 	r.Sample(3, cases[len(cases)-1])
+	r.Assume("with a TCP connection around that never sent a byte, the operator's line is entered no earlier than 12 s after that connection was opened (net/http's shutdown waits until such a connection is 5 s old)")
 	r.Assume("'shortly' is implemented as 'refused at some poll within 20 s'; the operator's next line is entered 3 s after the shell is gone (net/http's graceful shutdown polls at up to 500 ms)")
 }
 
 func c12Replay(kind string, raw json.RawMessage) int {
+	if "c12race" == kind {
+		r := ev.New("C12", "quick", "exploration")
+		base := ev.Scratch("c12r-")
+		defer os.RemoveAll(base)
+		c12IORace(r, base, 40)
+		if r.NViolations() > 0 {
+			fmt.Println("reproduced")
+			return 1
+		}
+		fmt.Println("not reproduced in 40 trials")
+		return 0
+	}
 	var c c12Case
 	if err := json.Unmarshal(raw, &c); nil != err {
 		return 2
@@ -491,4 +529,93 @@ func c12Replay(kind string, raw json.RawMessage) int {
 	}
 	fmt.Println("not reproduced")
 	return 0
+}
+
+// c12IORace: three /io clients call back at the same moment (a one-liner run
+// on three hosts, or three times).  One of them becomes the shell and the
+// listener closes; the operator's line reaches that client and that client's
+// output is what is displayed - the one shell is one client.
+func c12IORace(r *ev.Result, base string, trials int) {
+	n := 0
+	for trial := 0; trial < trials; trial++ {
+		problem := func() string {
+			dir, _ := os.MkdirTemp(base, "iorace-")
+			defer os.RemoveAll(dir)
+			cmd := exec.Command(binPath("curlrevshell"), "-one-shell", "-listen-address", "127.0.0.1:0", "-tls-certificate-cache", filepath.Join(dir, "c", "cert.txtar"))
+			cmd.Env = append(os.Environ(), "HOME="+dir, "CURLREVSHELL_LOG=")
+			p, err := ptyrun.Start(cmd)
+			if nil != err {
+				ev.Broken("%s", err)
+			}
+			defer p.Close()
+			lre := regexp.MustCompile(`Listening on (\S+)`)
+			if p.WaitFor(lre, 0, c12Wait) < 0 {
+				return "the program did not start"
+			}
+			addr := lre.FindStringSubmatch(p.Output())[1]
+			const k = 3
+			var (
+				conns [k]*hworld.Conn
+				wg    sync.WaitGroup
+				start = make(chan struct{})
+			)
+			for i := range conns {
+				if conns[i], err = hworld.DialAddr(addr, ""); nil != err {
+					return "connecting: " + err.Error()
+				}
+				defer conns[i].Close()
+				wg.Add(1)
+				go func(i int) {
+					defer wg.Done()
+					<-start
+					conns[i].Send("POST /io HTTP/1.1\r\nHost: x\r\nTransfer-Encoding: chunked\r\n\r\n")
+				}(i)
+			}
+			close(start)
+			wg.Wait()
+			if p.WaitFor(regexp.MustCompile(`Shell is ready`), 0, c12Wait) < 0 {
+				return "three /io clients called back together and none became the shell: " + tail(p.Output(), 300)
+			}
+			/* The operator's line: who gets it? */
+			p.Send("ping-from-the-operator\r")
+			got := make(chan int, k)
+			for i := range conns {
+				go func(i int) {
+					conns[i].C.SetReadDeadline(time.Now().Add(c12Wait))
+					buf, acc := make([]byte, 4096), ""
+					for {
+						m, err := conns[i].R.Read(buf)
+						acc += string(buf[:m])
+						if strings.Contains(acc, "ping-from-the-operator") {
+							got <- i
+							return
+						}
+						if nil != err {
+							return
+						}
+					}
+				}(i)
+			}
+			var who int
+			select {
+			case who = <-got:
+			case <-time.After(c12Wait):
+				return "the shell is announced ready but the operator's line reached none of the three clients"
+			}
+			conns[who].Send(chunk(fmt.Sprintf("pong-from-client-%d\n", who)))
+			if p.WaitFor(regexp.MustCompile(fmt.Sprintf(`pong-from-client-%d`, who)), 0, c12Wait) < 0 {
+				return fmt.Sprintf("the operator's line went to client %d, but that client's output is not displayed (its output half is not part of the shell): %s", who, tail(p.Output(), 300))
+			}
+			return ""
+		}()
+		n++
+		if "" != problem {
+			r.Violate(ev.Violation{Signature: "io-race/shell-is-not-one-client", Kind: "c12race", Replay: map[string]any{"scenario": "three /io clients together under -one-shell", "trial": trial},
+				What: fmt.Sprintf("-one-shell, three /io clients calling back at the same moment (trial %d): %s", trial, problem)})
+			break
+		}
+	}
+	r.Add(n)
+	r.AddDistinct(n)
+	r.Set("io_race_trials", n)
 }
